@@ -43,10 +43,12 @@ package kubeeventsmanager
 // Ghost log of events handed to the hook machinery directly (callback enabled).
 //@ ghost nPut int
 //@ ghost lastPut kemtypes.KubeEvent
+//@ ghost putLog map[int]kemtypes.KubeEvent
 //@ trusted func (*resourceInformer).putEvent
-//@   modifies nPut, lastPut
+//@   modifies nPut, lastPut, putLog
 //@   ghostset nPut := nPut + 1
 //@   ghostset lastPut := ev
+//@   ghostset putLog[nPut] := ev
 //@ package github.com/flant/shell-operator/pkg/kube_events_manager
 
 // the object a watch notification is about (informers wrap the last known state of a deleted
@@ -60,32 +62,33 @@ package kubeeventsmanager
 // same checksum; Deleted removes the entry and fires iff listed; other cache entries are untouched;
 // a stopped informer or a failing filter changes nothing.
 //@ func (*resourceInformer).handleWatchEvent
-//@   prop C08
+//@   prop C08, C01
 //@   requires ei.Monitor != nil && ei.cachedObjects != nil && ei.cachedObjectsInfo != nil && ei.cachedObjectsIncrement != nil
 //@   requires [assumed:informer-delivers-unstructured-objects] IsObj(object) || (dyntype(object, cache.DeletedFinalStateUnknown) && IsObj(object.(cache.DeletedFinalStateUnknown).Obj))
 //@   requires forall(k, string, has(ei.cachedObjects, k) ==> ei.cachedObjects[k] != nil)
 //@   requires [event-kind] eventType == kemtypes.WatchEventAdded || eventType == kemtypes.WatchEventModified || eventType == kemtypes.WatchEventDeleted
-//@   modifies mapof(ei.cachedObjects), fields(ei.cachedObjectsInfo), fields(ei.cachedObjectsIncrement), ei.eventBuf, elems(ei.eventBuf), nPut, lastPut, lastFilterRes, lastFilterErr
+//@   modifies mapof(ei.cachedObjects), fields(ei.cachedObjectsInfo), fields(ei.cachedObjectsIncrement), ei.eventBuf, elems(ei.eventBuf), ei.eventCbEnabled, nPut, lastPut, putLog, lastFilterRes, lastFilterErr
 //@   let o := ite(dyntype(object, cache.DeletedFinalStateUnknown), object.(cache.DeletedFinalStateUnknown).Obj, object).(*unstructured.Unstructured)
 //@   let rid := resourceId(ite(dyntype(object, cache.DeletedFinalStateUnknown), object.(cache.DeletedFinalStateUnknown).Obj, object).(*unstructured.Unstructured))
 //@   let wasCached := old(has(ei.cachedObjects, rid))
 //@   let oldSum := old(ei.cachedObjects[rid].Metadata.Checksum)
 //@   let nFired := (nPut - old(nPut)) + (len(ei.eventBuf) - old(len(ei.eventBuf)))
-//@   ensures [at-most-one]     nFired == 0 || nFired == 1
-//@   ensures [stopped]         old(ei.stopped) ==> nFired == 0 && has(ei.cachedObjects, rid) == wasCached
-//@   ensures [others-kept]     forall(k, string, k != rid ==> has(ei.cachedObjects, k) == old(has(ei.cachedObjects, k)) && ei.cachedObjects[k] == old(ei.cachedObjects[k]))
-//@   ensures [not-listed]      !listed(ei.Monitor.EventTypes, eventType) ==> nFired == 0
-//@   ensures [cache-updated]   (eventType == kemtypes.WatchEventAdded || eventType == kemtypes.WatchEventModified) && !old(ei.stopped) && lastFilterErr == nil ==> has(ei.cachedObjects, rid) && ei.cachedObjects[rid] == lastFilterRes
-//@   ensures [cache-removed]   eventType == kemtypes.WatchEventDeleted && !old(ei.stopped) && lastFilterErr == nil ==> !has(ei.cachedObjects, rid)
-//@   ensures [unchanged-skipped] (eventType == kemtypes.WatchEventAdded || eventType == kemtypes.WatchEventModified) && wasCached && has(ei.cachedObjects, rid)
+//@   ensures [at-most-one @C08]     nFired == 0 || nFired == 1
+//@   ensures [stopped @C08]         old(ei.stopped) ==> nFired == 0 && has(ei.cachedObjects, rid) == wasCached
+//@   ensures [others-kept @C08]     forall(k, string, k != rid ==> has(ei.cachedObjects, k) == old(has(ei.cachedObjects, k)) && ei.cachedObjects[k] == old(ei.cachedObjects[k]))
+//@   ensures [not-listed @C08]      !listed(ei.Monitor.EventTypes, eventType) ==> nFired == 0
+//@   ensures [cache-updated @C08]   (eventType == kemtypes.WatchEventAdded || eventType == kemtypes.WatchEventModified) && !old(ei.stopped) && lastFilterErr == nil ==> has(ei.cachedObjects, rid) && ei.cachedObjects[rid] == lastFilterRes
+//@   ensures [cache-removed @C08]   eventType == kemtypes.WatchEventDeleted && !old(ei.stopped) && lastFilterErr == nil ==> !has(ei.cachedObjects, rid)
+//@   ensures [unchanged-skipped @C08] (eventType == kemtypes.WatchEventAdded || eventType == kemtypes.WatchEventModified) && wasCached && has(ei.cachedObjects, rid)
 //@        && ei.cachedObjects[rid].Metadata.Checksum == oldSum && ei.cachedObjects[rid] != old(ei.cachedObjects[rid]) ==> nFired == 0
-//@   ensures [changed-fires]   (eventType == kemtypes.WatchEventAdded || eventType == kemtypes.WatchEventModified) && listed(ei.Monitor.EventTypes, eventType) && has(ei.cachedObjects, rid)
+//@   ensures [changed-fires @C08]   (eventType == kemtypes.WatchEventAdded || eventType == kemtypes.WatchEventModified) && listed(ei.Monitor.EventTypes, eventType) && has(ei.cachedObjects, rid)
 //@        && ei.cachedObjects[rid] != old(ei.cachedObjects[rid]) && (!wasCached || ei.cachedObjects[rid].Metadata.Checksum != oldSum) ==> nFired == 1
-//@   ensures [deleted-fires]   eventType == kemtypes.WatchEventDeleted && wasCached && !has(ei.cachedObjects, rid) && listed(ei.Monitor.EventTypes, eventType) ==> nFired == 1
-//@   ensures [deleted-uncached] eventType == kemtypes.WatchEventDeleted && nFired == 1 ==> !has(ei.cachedObjects, rid)
-//@   ensures [cache-follows]   nFired == 1 && eventType != kemtypes.WatchEventDeleted ==> has(ei.cachedObjects, rid) && ei.cachedObjects[rid].Metadata.ResourceId == rid
-//@   ensures [delivered-or-buffered] nPut > old(nPut) ==> old(ei.eventCbEnabled) && lastPut.Type == kemtypes.TypeEvent && len(lastPut.WatchEvents) == 1 && lastPut.WatchEvents[0] == eventType
+//@   ensures [deleted-fires @C08]   eventType == kemtypes.WatchEventDeleted && wasCached && !has(ei.cachedObjects, rid) && listed(ei.Monitor.EventTypes, eventType) ==> nFired == 1
+//@   ensures [deleted-uncached @C08] eventType == kemtypes.WatchEventDeleted && nFired == 1 ==> !has(ei.cachedObjects, rid)
+//@   ensures [cache-follows @C08]   nFired == 1 && eventType != kemtypes.WatchEventDeleted ==> has(ei.cachedObjects, rid) && ei.cachedObjects[rid].Metadata.ResourceId == rid
+//@   ensures [delivered-or-buffered @C08] nPut > old(nPut) ==> old(ei.eventCbEnabled) && lastPut.Type == kemtypes.TypeEvent && len(lastPut.WatchEvents) == 1 && lastPut.WatchEvents[0] == eventType
 //@        && len(lastPut.Objects) == 1 && lastPut.MonitorId == ei.Monitor.Metadata.MonitorId
+//@   ensures [one-direct-delivery @C01] nPut == old(nPut) || nPut == old(nPut) + 1
 
 // the informer callbacks forward with the matching event kind
 //@ func (*resourceInformer).OnAdd
@@ -93,22 +96,22 @@ package kubeeventsmanager
 //@   requires ei.Monitor != nil && ei.cachedObjects != nil && ei.cachedObjectsInfo != nil && ei.cachedObjectsIncrement != nil
 //@   requires [assumed:informer-delivers-unstructured-objects] IsObj(obj) || (dyntype(obj, cache.DeletedFinalStateUnknown) && IsObj(obj.(cache.DeletedFinalStateUnknown).Obj))
 //@   requires forall(k, string, has(ei.cachedObjects, k) ==> ei.cachedObjects[k] != nil)
-//@   modifies mapof(ei.cachedObjects), fields(ei.cachedObjectsInfo), fields(ei.cachedObjectsIncrement), ei.eventBuf, elems(ei.eventBuf), nPut, lastPut, lastFilterRes, lastFilterErr
-//@   ensures [kind] nPut > old(nPut) ==> lastPut.WatchEvents[0] == kemtypes.WatchEventAdded
+//@   modifies mapof(ei.cachedObjects), fields(ei.cachedObjectsInfo), fields(ei.cachedObjectsIncrement), ei.eventBuf, elems(ei.eventBuf), ei.eventCbEnabled, nPut, lastPut, putLog, lastFilterRes, lastFilterErr
+//@   ensures [kind @C08] nPut > old(nPut) ==> lastPut.WatchEvents[0] == kemtypes.WatchEventAdded
 //@ func (*resourceInformer).OnUpdate
 //@   prop C08
 //@   requires ei.Monitor != nil && ei.cachedObjects != nil && ei.cachedObjectsInfo != nil && ei.cachedObjectsIncrement != nil
 //@   requires [assumed:informer-delivers-unstructured-objects] IsObj(newObj) || (dyntype(newObj, cache.DeletedFinalStateUnknown) && IsObj(newObj.(cache.DeletedFinalStateUnknown).Obj))
 //@   requires forall(k, string, has(ei.cachedObjects, k) ==> ei.cachedObjects[k] != nil)
-//@   modifies mapof(ei.cachedObjects), fields(ei.cachedObjectsInfo), fields(ei.cachedObjectsIncrement), ei.eventBuf, elems(ei.eventBuf), nPut, lastPut, lastFilterRes, lastFilterErr
-//@   ensures [kind] nPut > old(nPut) ==> lastPut.WatchEvents[0] == kemtypes.WatchEventModified
+//@   modifies mapof(ei.cachedObjects), fields(ei.cachedObjectsInfo), fields(ei.cachedObjectsIncrement), ei.eventBuf, elems(ei.eventBuf), ei.eventCbEnabled, nPut, lastPut, putLog, lastFilterRes, lastFilterErr
+//@   ensures [kind @C08] nPut > old(nPut) ==> lastPut.WatchEvents[0] == kemtypes.WatchEventModified
 //@ func (*resourceInformer).OnDelete
 //@   prop C08
 //@   requires ei.Monitor != nil && ei.cachedObjects != nil && ei.cachedObjectsInfo != nil && ei.cachedObjectsIncrement != nil
 //@   requires [assumed:informer-delivers-unstructured-objects] IsObj(obj) || (dyntype(obj, cache.DeletedFinalStateUnknown) && IsObj(obj.(cache.DeletedFinalStateUnknown).Obj))
 //@   requires forall(k, string, has(ei.cachedObjects, k) ==> ei.cachedObjects[k] != nil)
-//@   modifies mapof(ei.cachedObjects), fields(ei.cachedObjectsInfo), fields(ei.cachedObjectsIncrement), ei.eventBuf, elems(ei.eventBuf), nPut, lastPut, lastFilterRes, lastFilterErr
-//@   ensures [kind] nPut > old(nPut) ==> lastPut.WatchEvents[0] == kemtypes.WatchEventDeleted
+//@   modifies mapof(ei.cachedObjects), fields(ei.cachedObjectsInfo), fields(ei.cachedObjectsIncrement), ei.eventBuf, elems(ei.eventBuf), ei.eventCbEnabled, nPut, lastPut, putLog, lastFilterRes, lastFilterErr
+//@   ensures [kind @C08] nPut > old(nPut) ==> lastPut.WatchEvents[0] == kemtypes.WatchEventDeleted
 
 // C08: executeHookOnEvent absent = all three watch events; otherwise exactly the given ones.
 //@ func (*MonitorConfig).WithEventTypes
@@ -117,3 +120,50 @@ package kubeeventsmanager
 //@   ensures [default] types == nil ==> len(c.EventTypes) == 3 && c.EventTypes[0] == kemtypes.WatchEventAdded && c.EventTypes[1] == kemtypes.WatchEventModified && c.EventTypes[2] == kemtypes.WatchEventDeleted
 //@   ensures [given]   types != nil ==> sameseq(c.EventTypes, types)
 //@   ensures [self]    result == c
+
+// ---- C01: no event is lost or parked between the Synchronization view and later Events ------
+// Concurrency model, used only when checking C01 (elsewhere each critical section is atomic code):
+// acquiring a lock forgets what is known about the protected fields and assumes the invariant;
+// releasing it must re-establish it.
+//
+// eventBufLock: once the callback is enabled nothing may sit in the buffer (an event appended
+// after the replay would never be delivered).
+//@ lock (*resourceInformer).eventBufLock
+//@   prop C01
+//@   recv ei
+//@   protects eventBuf, eventCbEnabled
+//@   invariant [nothing-parked-once-enabled] ei.eventCbEnabled ==> len(ei.eventBuf) == 0
+//@ lock (*resourceInformer).cacheLock
+//@   prop C01
+//@   recv ei
+//@   protects cachedObjects
+//@   invariant forall(k, string, has(ei.cachedObjects, k) ==> ei.cachedObjects[k] != nil)
+
+// C01: enabling the callback replays the buffered events in order, exactly once, and leaves the
+// buffer empty; enabling twice replays nothing.
+//@ func (*resourceInformer).enableKubeEventCb
+//@   prop C01
+//@   opt old=cs
+//@   modifies ei.eventBuf, ei.eventCbEnabled, nPut, lastPut, putLog
+//@   ensures [enabled]          ei.eventCbEnabled && len(ei.eventBuf) == 0
+//@   ensures [replayed-in-order] !old(ei.eventCbEnabled) ==> nPut == old(nPut) + old(len(ei.eventBuf)) && forall(k, old(nPut), nPut, putLog[k] == old(ei.eventBuf)[k - old(nPut)])
+//@   ensures [idempotent]       old(ei.eventCbEnabled) ==> nPut == old(nPut)
+//@   loop 1
+//@     invariant 0 <= iter() && iter() <= len(ei.eventBuf) && ei.eventCbEnabled && ei.eventBuf == old(ei.eventBuf) && !old(ei.eventCbEnabled)
+//@     invariant nPut == old(nPut) + iter() && forall(k, old(nPut), nPut, putLog[k] == ei.eventBuf[k - old(nPut)])
+
+// C01 / C02: the Synchronization view is a copy of the cache (each cached object once); the
+// buffer is dropped only while the callback is disabled, and - so that no change can fall between
+// the copy and the reset - while the cache is still locked.
+//@ func (*resourceInformer).getCachedObjects
+//@   prop C01, C02
+//@   opt old=cs
+//@   at-lock eventBufLock: held(ei.cacheLock)
+//@   requires ei.cachedObjects != nil
+//@   modifies ei.eventBuf
+//@   ensures [one-per-object] len(result) == nvisited() && forall(k, string, has(ei.cachedObjects, k) ==> visited(k))
+//@   ensures [copies]        forall(j, 0, len(result), has(ei.cachedObjects, keyseq()[j]) && result[j] == *ei.cachedObjects[keyseq()[j]])
+//@   ensures [buffer]        !ei.eventCbEnabled ==> len(ei.eventBuf) == 0
+//@   loop 1
+//@     invariant 0 <= nvisited() && fresh(res) && len(res) == nvisited()
+//@     invariant forall(j, 0, nvisited(), has(ei.cachedObjects, keyseq()[j]) && res[j] == *ei.cachedObjects[keyseq()[j]])
